@@ -9,17 +9,19 @@
      Valid / Symtable   CPython compiled the program, and classifies names as Cls does
      Observed           the execution semantics (Obs) predicts exactly the observed bindings
      scope / exact      the property: landings within Landings; exact in straight-line code
+   Programs with the oracle Hazard of Scoping.tla are reported as SKIP and not judged.
    A REJECT names the failing clause, the deviation mechanism (Mech) and "drift" when the
    Design (JediGoto) did not predict the recorded landings.                             *)
 EXTENDS Naturals, Sequences, FiniteSets, TLC, Json, IOUtils
 
-CONSTANTS NNames, MaxItems, MaxDepth, Feat, EmitMod, EmitRem
+CONSTANTS NNames, MaxItems, MaxDepth, Feat, EmitMod, EmitRem, SpecMod
 VARIABLES prog, sc, stack, loopAt, cnt, maxn
 INSTANCE Scoping
 
 Traces == JsonDeserialize(IOEnv.TRACE_FILE)
 VARIABLES tid, l,
-          stv, obsv     \* Static and Obs of the program, computed once per trace
+          stv, obsv,    \* Static and Obs of the program, computed once per trace
+          hz            \* Hazard: this interpreter cannot serve as oracle for the program
 
 ToSet(q) == {q[k] : k \in 1..Len(q)}
 Tr == Traces[tid]
@@ -28,13 +30,13 @@ Ev == Tr[l]
 TInit == /\ tid \in 1..Len(Traces) /\ l = 1
          /\ prog = Traces[tid][1].prog /\ sc = Traces[tid][1].sc
          /\ stack = <<>> /\ loopAt = 0 /\ cnt = 0 /\ maxn = 0
-         /\ stv = Static /\ obsv = ObsOf(stv)
+         /\ stv = Static /\ obsv = ObsOf(stv) /\ hz = Hazard
 
 SymOK == \A e \in 1..Len(Ev.cls) : Cls(Ev.cls[e][1], Ev.cls[e][2]) = Ev.cls[e][3]
 UseVerdict == Verdict(stv, Ev.i, ToSet(Ev.goto), obsv[Ev.i])
 Drift == Ev.k = "use" /\ JediGoto(Ev.i) # ToSet(Ev.goto)
 EvOK == IF Ev.k = "prog" THEN Valid /\ SymOK
-        ELSE ToSet(Ev.obs) = obsv[Ev.i] /\ UseVerdict[1] = "ok"
+        ELSE hz \/ (ToSet(Ev.obs) = obsv[Ev.i] /\ UseVerdict[1] = "ok")
 Why == IF Ev.k = "prog" THEN (IF Valid THEN {} ELSE {"Valid"}) \cup (IF Valid /\ ~SymOK THEN {"Symtable"} ELSE {})
        ELSE IF ToSet(Ev.obs) # obsv[Ev.i] THEN {"Observed"}
        ELSE {UseVerdict[1], UseVerdict[2]} \cup (IF Drift THEN {"drift"} ELSE {})
@@ -42,9 +44,10 @@ Why == IF Ev.k = "prog" THEN (IF Valid THEN {} ELSE {"Valid"}) \cup (IF Valid /\
 \* every event is judged (a known deviation at one use must not hide the later uses)
 TNext == /\ l <= Len(Tr)
          /\ l' = l + 1
-         /\ UNCHANGED <<tid, prog, sc, stack, loopAt, cnt, maxn, stv, obsv>>
+         /\ UNCHANGED <<tid, prog, sc, stack, loopAt, cnt, maxn, stv, obsv, hz>>
 TraceVerdict ==
   IF l = Len(Tr) + 1 THEN PrintT(<<"ACCEPT", tid>>)
-  ELSE /\ (IF Drift THEN PrintT(<<"DRIFT", tid, l>>) ELSE TRUE)
+  ELSE /\ (IF l = 1 /\ hz THEN PrintT(<<"SKIP", tid>>) ELSE TRUE)
+       /\ (IF Drift /\ ~hz THEN PrintT(<<"DRIFT", tid, l>>) ELSE TRUE)
        /\ (EvOK \/ PrintT(<<"REJECT", tid, l, Why>>))
 =============================================================================
